@@ -80,13 +80,17 @@ def gen_schedules(ctx, d):
             raise Broken("deviation %s no longer violates %s in the model (vacuous deviation)" % (name, devs[name]))
         inline, interval = DEV_PARAMS.get(name, (0, 1))
         for cache in (True, False):
-            scheds.append({"inline": inline, "interval": interval, "cache": cache, "sync": True, "mbs": MBS, "steps": h})
+            scheds.append({"inline": inline, "interval": interval, "cache": cache, "sync": True, "cancel": False, "mbs": MBS, "steps": h})
             labels.append("dev:" + name)
+        if any(x["a"] in ("UpSeg", "UpIdx") and not x.get("ok", True) for x in h):
+            # the same counterexample with the failures delivered as a cancellation of the producer's request context
+            scheds.append({"inline": inline, "interval": interval, "cache": True, "sync": True, "cancel": True, "mbs": MBS, "steps": h})
+            labels.append("dev:" + name + "+cancel")
     nsim = 40 if ctx.quick() else 250
     for i, (cfg, (inline, interval)) in enumerate(sorted(SIMS.items())):
         hs, _ = T.simulate_hists(ctx, d, "MC_Log.tla", cfg, num=nsim, depth=45, seed=ctx.seed * 7 + i, timeout=900)
         for j, h in enumerate(hs):
-            scheds.append({"inline": inline, "interval": interval, "cache": (j % 2 == 0), "sync": cfg not in ASYNC_SIMS, "mbs": MBS, "steps": h})
+            scheds.append({"inline": inline, "interval": interval, "cache": (j % 2 == 0), "sync": cfg not in ASYNC_SIMS, "cancel": (j % 3 == 2), "mbs": MBS, "steps": h})
             labels.append("sim:" + cfg[8])
     return scheds, labels, sorted(devs)
 
